@@ -212,8 +212,8 @@ func checkC18(run *mon.Run, rng *mon.Rand, thorough bool) {
 	}
 	hists := []c18History{{"two-chain", histTwoChain}, {"validators", histValidators}, {"oracle", histOracle}, {"l1-world", histL1World}}
 	N := pick(thorough, 4, 16)
-	seeds := pick(thorough, 2, 12)
-	steps := pick(thorough, 150, 400)
+	seeds := pick(thorough, 2, 3)
+	steps := pick(thorough, 150, 200)
 	totalSensitive := 0
 	for _, h := range hists {
 		for k := 0; k < seeds && !run.TooMany(); k++ {
